@@ -116,7 +116,16 @@ def check_one(ctx, q, data, info, classify=True):
         _fs.argument_var_counter = 0
         ctx.count("cases-with-generated-name-counter-at-zero")
     try:
-        out = simplify_chained_calls().visit(astx.clone(q))
+        # (every third case: ONE simplifier object is used for query after query, as a back end that keeps its transformer does)
+        import threading as _thr
+
+        _keep = _thr.current_thread().__dict__.setdefault("_verif_kept_simplifier", {})
+        if ctx.evaluations % 3 == 1:
+            _simp = _keep.setdefault("s", simplify_chained_calls())
+            ctx.count("cases-simplified-by-a-reused-simplifier-object")
+        else:
+            _simp = simplify_chained_calls()
+        out = _simp.visit(astx.clone(q))
     except Exception as e:
         # totality is C18's; here we only need equality when there is an output
         ctx.count("skipped:simplifier-raised:" + type(e).__name__)
